@@ -543,7 +543,26 @@ def column_coding(repo, fn, frame_expr):
     from ..terms import pattern, unify
     m = fn.module
     F = fn.params[0]
+    # helpers that are new with respect to the confirmed tree are evaluated (what they return, over their argument)
+    try:
+        from ..match import PathEval, PathResult
+        pe = PathEval(fn, None, None)
+        pe.res = PathResult()
+        pe.eval_closures = True
+        frame_expr = pe._eval_local_call(frame_expr)
+    except Exception:
+        pass
     t = term_of(fn, frame_expr, inline=False)
+
+    def strip_defaults(x):
+        # keyword arguments that restate a default of pandas.factorize
+        if isinstance(x, tuple):
+            x = tuple(strip_defaults(y) for y in x)
+            if len(x) == 4 and x[0] == 'call' and (x[1] == ('lib', 'pandas.factorize') or (x[1][0] == 'attr' and x[1][2] == 'factorize')):
+                kws = tuple(k for k in x[3] if k not in (('use_na_sentinel', ('bool', True)), ('sort', ('bool', False)), ('na_sentinel', ('num', -1))))
+                return (x[0], x[1], x[2], kws)
+        return x
+    t = strip_defaults(t)
     ctor = None
     for src in ('pandas.DataFrame(D)', 'pandas.DataFrame(D, index=I)', 'pandas.DataFrame(data=D)', 'pandas.DataFrame(D, index=I, columns=Q)'):
         b = unify(pattern(m, src, ['D', 'I', 'Q']), t)
